@@ -83,6 +83,13 @@ def build_cases(tier):
     s = one_htlc(pc, scid=True, invoice=None, extra_payload=[EXTRA[0], (16, pm), EXTRA[1], EXTRA[3], EXTRA[4]])
     cases_rewrite = ('forward with length-prefixed metadata (rewrite)', [inv], s, pc, [EXTRA[0], (16, pm), EXTRA[1], EXTRA[3], EXTRA[4]])
     base(*cases_rewrite)
+    # 1c. the same with sibling records at every BigSize boundary (type and length 252, 253, 65535, 65536): the re-encoding
+    #     has to switch between the 1-, 3- and 5-byte forms at exactly these values
+    pc = []
+    wide = [(252, [5] * 252), (253, [7] * 253), (65535, [1]), (65536, [2, 3]), (70000, [6] * 254)]
+    ents = [EXTRA[0], (16, pm)] + wide
+    s = one_htlc(pc, scid=True, invoice=None, extra_payload=ents)
+    base('rewrite with records at BigSize boundaries', [inv], s, pc, ents)
     # 2. final hop without any metadata record
     pc = []
     s = one_htlc(pc, invoice=None, extra_payload=EXTRA)
